@@ -9,7 +9,7 @@
    All theorems: every shape, every trace, every interleaving; no bounds. *)
 From Coercion.Base Require Import Plan.
 From Coercion.Engine Require Import Shape Event Action ChecksRun Seq Block Final PlanSM Auto Accept.
-From Coercion.C08 Require Import MonC08 C08Thm.
+From Coercion.C08 Require Import MonC08 C08Thm C08Explained.
 
 (* clauses (a) Start only when durably (Running, n); (b) every attempt's result durable before the next attempt /
    the next action of the sequence / the terminal write; (c) release only after the plan's terminal write, with the
@@ -74,3 +74,13 @@ Theorem c08_no_visible_regress :
     mon_reads (sh, tr) = true.
 Proof. exact no_visible_regress. Qed.
 Print Assumptions c08_no_visible_regress.
+
+(* ... and that hypothesis follows from the condition mon_explained, which is EVALUATED on every real trace: for every
+   accepted trace whose polls the durable history explains (each snapshot cell = a value the object durably had, at
+   positions that never go backwards, with one not-yet-logged write of look-ahead per object), no visible regress *)
+Theorem c08_no_visible_regress_checked :
+  forall (sh : shape) (tr : list event) (s : st),
+    shape_wf sh = true -> run sh init tr = Some s ->
+    mon_explained (sh, tr) = true -> mon_reads (sh, tr) = true.
+Proof. exact no_visible_regress_checked. Qed.
+Print Assumptions c08_no_visible_regress_checked.
